@@ -39,6 +39,9 @@ def run(ctx):
     from sa import eff
     eff.check_fwd(ctx, [("edgegraph.traversal.breadthfirst.bft", "ibft", {}), ("edgegraph.traversal.depthfirst.dft_recursive", "idft_recursive", {}),
                         ("edgegraph.traversal.depthfirst.dft_iterative", "idft_iterative", {}), ("edgegraph.traversal.depthfirst.idft_recursive", "_dft_recur", {"start": "v"})])
+    from rules import hist
+    hist.run(ctx, res, 'C06')       # composition: histories through the public API against the reference model (rules/hist.py)
+    common.vacuity(res, "HISTORY", 3000)
     steps(ctx, res)
     common.vacuity(res, "REACH-SWEEP", 3000)
     res.analysed = common.analysed(ctx, [f"{m}.{g}" for m, l, g, s in trav.TRAVS.values()] + [f"{m}.{l}" for m, l, g, s in trav.TRAVS.values()])
